@@ -1,13 +1,565 @@
-// Package c06 is the harness for property C06 (runs the real kapacitor code, prints op lines).
+// Package c06 is the harness for property C06 (group identity and isolation). It runs the REAL kapacitor
+// code in-process and prints op lines with what the implementation did. Three kinds of cases:
+//
+//	gid  – models.ToGroupID called directly on generated (name, tags, dimensions) triples;
+//	gb   – a real stream task `from()|groupBy(...)` (or `from().groupBy(...)`) with an `@sink()` behind it:
+//	       observed per point = the GroupID and Dimensions the node assigned (determineTagNames /
+//	       computeTagNames / ToGroupID through edge.PointMessage.SetDimensions);
+//	iso  – RELATIONAL runs through real tasks: the same pipeline `from()|groupBy(dims)|NODE@sink()` is run once
+//	       on the full interleaved point list and once per group on that group's points alone; observed =
+//	       every message that reached the sink (group key, time, projection, full content), for each run.
 package c06
 
 import (
 	"fmt"
 	"os"
+	"runtime"
+	"sort"
+	"strconv"
+	"strings"
+	"time"
+
+	"github.com/influxdata/kapacitor"
+	"github.com/influxdata/kapacitor/edge"
+	"github.com/influxdata/kapacitor/models"
+
+	"verifharness/kit"
 )
 
-// Run is replaced by the property's harness.
+// ---------------------------------------------------------------------------------------------
+// token helpers
+
+func escList(xs []string) string {
+	if len(xs) == 0 {
+		return "-"
+	}
+	o := make([]string, len(xs))
+	for i, x := range xs {
+		o[i] = kit.Esc(x)
+	}
+	return strings.Join(o, ",")
+}
+
+func unescList(tok string) []string {
+	if tok == "-" {
+		return nil
+	}
+	var o []string
+	for _, x := range strings.Split(tok, ",") {
+		v, _ := kit.Unesc(x)
+		o = append(o, v)
+	}
+	return o
+}
+
+// tags on the wire: k=v,k=v in the ORDER GIVEN (the generator emits them sorted by key)
+func parseTags(tok string) models.Tags {
+	t := models.Tags{}
+	if tok == "-" {
+		return t
+	}
+	for _, kv := range strings.Split(tok, ",") {
+		i := strings.Index(kv, "=")
+		if i < 0 {
+			continue
+		}
+		k, _ := kit.Unesc(kv[:i])
+		v, _ := kit.Unesc(kv[i+1:])
+		t[k] = v
+	}
+	return t
+}
+
+// fields on the wire: k=i:5,k=s:abc,k=b:1,k=f:<16 hex>
+func parseFields(tok string) models.Fields {
+	f := models.Fields{}
+	if tok == "-" {
+		return f
+	}
+	for _, kv := range strings.Split(tok, ",") {
+		i := strings.Index(kv, "=")
+		if i < 0 {
+			continue
+		}
+		k, _ := kit.Unesc(kv[:i])
+		v := kv[i+1:]
+		switch {
+		case strings.HasPrefix(v, "i:"):
+			n, _ := strconv.ParseInt(v[2:], 10, 64)
+			f[k] = n
+		case strings.HasPrefix(v, "s:"):
+			s, _ := kit.Unesc(v[2:])
+			f[k] = s
+		case strings.HasPrefix(v, "b:"):
+			f[k] = v[2:] == "1"
+		case strings.HasPrefix(v, "f:"):
+			bits, _ := strconv.ParseUint(v[2:], 16, 64)
+			f[k] = float64frombits(bits)
+		}
+	}
+	return f
+}
+
+type pt struct {
+	name   string
+	tags   models.Tags
+	fields models.Fields
+	t      int64
+}
+
+func parsePt(t []string) (pt, bool) {
+	if len(t) < 5 {
+		return pt{}, false
+	}
+	name, _ := kit.Unesc(t[1])
+	ns, _ := strconv.ParseInt(t[4], 10, 64)
+	return pt{name: name, tags: parseTags(t[2]), fields: parseFields(t[3]), t: ns}, true
+}
+
+// gkey renders the STRUCTURED identity of a group: by-name flag, the name when grouping by name, and the
+// (dimension, value) pairs in dimension order. It never looks at the GroupID string.
+func gkey(byName bool, name string, dims []string, tags models.Tags) string {
+	b, n := "0", "%"
+	if byName {
+		b, n = "1", kit.Esc(name)
+	}
+	ps := make([]string, len(dims))
+	for i, d := range dims {
+		ps[i] = kit.Esc(d) + "=" + kit.Esc(tags[d])
+	}
+	l := "-"
+	if len(ps) > 0 {
+		l = strings.Join(ps, ",")
+	}
+	return b + "~" + n + "~" + l
+}
+
+func proj(f models.Fields) string {
+	if v, ok := f["o"]; ok {
+		return kit.FieldVal(v)
+	}
+	return "-"
+}
+
+func renderMsg(m edge.Message) (string, bool) {
+	switch x := m.(type) {
+	case edge.PointMessage:
+		d := x.Dimensions()
+		return fmt.Sprintf("P|%s|%d|%s|%s|%s|%s", gkey(d.ByName, x.Name(), d.TagNames, x.Tags()), x.Time().UnixNano(),
+			proj(x.Fields()), kit.Esc(x.Name()), kit.FieldsStr(x.Fields()), kit.TagsStr(x.Tags())), true
+	case edge.BufferedBatchMessage:
+		d := x.Dimensions()
+		var ps []string
+		for _, bp := range x.Points() {
+			ps = append(ps, fmt.Sprintf("%d!%s!%s", bp.Time().UnixNano(), kit.FieldsStr(bp.Fields()), kit.TagsStr(bp.Tags())))
+		}
+		l := "-"
+		if len(ps) > 0 {
+			l = strings.Join(ps, ";")
+		}
+		return fmt.Sprintf("B|%s|%d|n:%d|%s|%s", gkey(d.ByName, x.Name(), d.TagNames, x.Tags()), x.Time().UnixNano(),
+			len(ps), kit.Esc(x.Name()), l), true
+	}
+	return "", false
+}
+
+// ---------------------------------------------------------------------------------------------
+// running one real stream task on a list of points
+
+var dbrps = []kapacitor.DBRP{{Database: "db", RetentionPolicy: "rp"}}
+
+// runTask starts a fresh TaskMaster + task, feeds the points through the TaskMaster's stream collector,
+// drains, waits for the task to finish and returns everything its (single) sink node received.
+func runTask(script string, pts []pt) (msgs []edge.Message, status string) {
+	type res struct {
+		msgs   []edge.Message
+		status string
+	}
+	ch := make(chan res, 1)
+	go func() {
+		m, s := runTask1(script, pts)
+		ch <- res{m, s}
+	}()
+	select {
+	case r := <-ch:
+		return r.msgs, r.status
+	case <-time.After(20 * time.Second):
+		// a run that does not finish is an observation (`hang`), not a harness failure; the goroutines of
+		// the stuck TaskMaster are abandoned
+		if os.Getenv("VERIF_LOG") != "" {
+			buf := make([]byte, 1<<20)
+			fmt.Fprintf(os.Stderr, "HANG\n%s\n%s\n", script, buf[:runtime.Stack(buf, true)])
+		}
+		return nil, "hang"
+	}
+}
+
+func runTask1(script string, pts []pt) (msgs []edge.Message, status string) {
+	status = "ok"
+	defer func() {
+		if r := recover(); r != nil {
+			status = "panic"
+		}
+	}()
+	t, err := kit.NewTM(kit.TMOpts{})
+	if err != nil {
+		return nil, "err:tm"
+	}
+	defer t.Close()
+	et, err := t.StartStream("t", script, dbrps)
+	if err != nil {
+		if os.Getenv("VERIF_LOG") != "" {
+			fmt.Fprintln(os.Stderr, "script error:", err, "\n", script)
+		}
+		return nil, "err:compile"
+	}
+	sc, err := t.TM.Stream("in")
+	if err != nil {
+		return nil, "err:stream"
+	}
+	for _, p := range pts {
+		// every run gets its own copies of the maps (nodes may keep references)
+		if err := sc.CollectPoint(edge.NewPointMessage(p.name, "db", "rp", models.Dimensions{}, p.fields.Copy(), p.tags.Copy(), time.Unix(0, p.t).UTC())); err != nil {
+			status = "err:collect"
+		}
+	}
+	sc.Close()
+	t.TM.Drain()
+	if err := et.Wait(); err != nil {
+		status = "err:task"
+	}
+	for _, k := range t.Rec.Keys() {
+		msgs = append(msgs, t.Rec.Get(k)...)
+	}
+	return msgs, status
+}
+
+func quoteTick(s string) string {
+	return "'" + strings.ReplaceAll(strings.ReplaceAll(s, `\`, `\\`), `'`, `\'`) + "'"
+}
+
+func groupByArgs(star bool, dims []string) string {
+	var a []string
+	if star {
+		a = append(a, "*")
+	}
+	for _, d := range dims {
+		a = append(a, quoteTick(d))
+	}
+	return strings.Join(a, ", ")
+}
+
+// ---------------------------------------------------------------------------------------------
+// gid
+
+func execGid(line string, t []string) string {
+	if len(t) < 5 {
+		return line + " => bad"
+	}
+	name, _ := kit.Unesc(t[2])
+	obs := func() (o string) {
+		defer func() {
+			if r := recover(); r != nil {
+				o = "panic"
+			}
+		}()
+		id := models.ToGroupID(name, parseTags(t[4]), models.Dimensions{ByName: t[1] == "1", TagNames: unescList(t[3])})
+		return kit.Esc(string(id))
+	}()
+	return line + " => " + obs
+}
+
+// ---------------------------------------------------------------------------------------------
+// gb: a real groupBy in a real task
+
+func gbScript(t []string) string {
+	// gb <from|node> <byName> <star> <dims> <excl>
+	byName, star := t[2] == "1", t[3] == "1"
+	dims, excl := unescList(t[4]), unescList(t[5])
+	var b strings.Builder
+	b.WriteString("stream\n  |from()")
+	if t[1] == "from" {
+		fmt.Fprintf(&b, "\n    .groupBy(%s)", groupByArgs(star, dims))
+		if byName {
+			b.WriteString("\n    .groupByMeasurement()")
+		}
+	} else {
+		fmt.Fprintf(&b, "\n  |groupBy(%s)", groupByArgs(star, dims))
+		if byName {
+			b.WriteString("\n    .byMeasurement()")
+		}
+		if len(excl) > 0 {
+			var q []string
+			for _, x := range excl {
+				q = append(q, quoteTick(x))
+			}
+			fmt.Fprintf(&b, "\n    .exclude(%s)", strings.Join(q, ", "))
+		}
+	}
+	b.WriteString("\n  @sink()\n")
+	return b.String()
+}
+
+func execGb(lines []string) []string {
+	var out []string
+	var cfg []string
+	var pts []pt
+	var ptLines []string
+	for _, l := range lines {
+		t := strings.Fields(l)
+		switch t[0] {
+		case "gb":
+			cfg = t
+			out = append(out, l)
+		case "pt":
+			if p, ok := parsePt(t); ok {
+				pts = append(pts, p)
+				ptLines = append(ptLines, l)
+			}
+		}
+	}
+	if len(cfg) < 6 {
+		return append(out, "bad")
+	}
+	msgs, status := runTask(gbScript(cfg), pts)
+	for i, l := range ptLines {
+		obs := "lost"
+		if status != "ok" {
+			obs = status
+		} else if len(msgs) == len(pts) {
+			if pm, ok := msgs[i].(edge.PointMessage); ok {
+				d := pm.Dimensions()
+				b := "0"
+				if d.ByName {
+					b = "1"
+				}
+				obs = kit.Esc(string(pm.GroupID())) + " " + b + " " + escList(d.TagNames)
+			}
+		}
+		out = append(out, l+" => "+obs)
+	}
+	return out
+}
+
+// ---------------------------------------------------------------------------------------------
+// iso: relational runs
+
+type nodeDef struct {
+	script string // the node chain placed after groupBy; %d verbs take p1, p2 in order of appearance
+	batch  bool   // the chain ends on a batch edge (@bsink instead of @sink)
+	nargs  int
+}
+
+// Modelled kinds (the Lean driver predicts their output) and opaque kinds (relational oracle only).
+var nodeDefs = map[string]nodeDef{
+	// modelled
+	"sample":     {"|sample(%d)", false, 1},
+	"statecount": {"|stateCount(lambda: \"v\" > %d)\n    .as('o')", false, 1},
+	"wherecount": {"|where(lambda: count() %% %d == %d)", false, 2},
+	"evalcount":  {"|eval(lambda: count())\n    .as('o')", false, 0},
+	"alertgt":    {"|alert()\n    .crit(lambda: count() > %d)\n    .levelField('o')", false, 1},
+	"alertmod":   {"|alert()\n    .crit(lambda: count() %% %d == 0)\n    .levelField('o')", false, 1},
+	"sum":        {"|sum('v')\n    .as('o')", false, 0},
+	"count":      {"|count('v')\n    .as('o')", false, 0},
+	// opaque: stream
+	"stateduration": {"|stateDuration(lambda: \"v\" > %d)\n    .as('o')\n    .unit(1s)", false, 1},
+	"derivative":    {"|derivative('v')\n    .unit(1s)\n    .as('o')", false, 0},
+	"derivativenn":  {"|derivative('v')\n    .unit(1s)\n    .nonNegative()\n    .as('o')", false, 0},
+	"changedetect":  {"|changeDetect('v')", false, 0},
+	"evalsigma":     {"|eval(lambda: sigma(\"v\"))\n    .as('o')", false, 0},
+	"evalspread":    {"|eval(lambda: spread(\"v\"), lambda: count())\n    .as('o', 'c')", false, 0},
+	"wheresigma":    {"|where(lambda: sigma(\"v\") < 1.0)", false, 0},
+	"alertsigma":    {"|alert()\n    .warn(lambda: sigma(\"v\") > 1.0)\n    .crit(lambda: \"v\" > %d)\n    .levelField('o')\n    .durationField('d')\n    .idField('i')", false, 1},
+	"alertlevels":   {"|alert()\n    .info(lambda: \"v\" > %d)\n    .warn(lambda: \"v\" > %d + 2)\n    .crit(lambda: \"v\" > 8)\n    .critReset(lambda: \"v\" < 3)\n    .levelField('o')\n    .durationField('d')\n    .idTag('i')", false, 2},
+	"alertsco":      {"|alert()\n    .warn(lambda: \"v\" > %d)\n    .crit(lambda: \"v\" > 8)\n    .stateChangesOnly()\n    .levelField('o')\n    .durationField('d')\n    .messageField('m')", false, 1},
+	"alertflap":     {"|alert()\n    .crit(lambda: \"v\" > %d)\n    .flapping(0.25, 0.5)\n    .history(5)\n    .levelField('o')", false, 1},
+	"last":          {"|last('v')\n    .as('o')", false, 0},
+	"mean":          {"|mean('v')\n    .as('o')", false, 0},
+	"cumsum":        {"|cumulativeSum('v')\n    .as('o')", false, 0},
+	"movavg":        {"|movingAverage('v', 2)\n    .as('o')", false, 0},
+	"difference":    {"|difference('v')\n    .as('o')", false, 0},
+	"elapsed":       {"|elapsed('v', 1s)\n    .as('o')", false, 0},
+	"default":       {"|default()\n    .field('w', %d)", false, 1},
+	// opaque: windows (batch out) and batch consumers behind a window
+	"windowt":       {"|window()\n    .period(%ds)\n    .every(%ds)", true, 2},
+	"windowtalign":  {"|window()\n    .period(%ds)\n    .every(%ds)\n    .align()", true, 2},
+	"windowtfill":   {"|window()\n    .period(%ds)\n    .every(%ds)\n    .fillPeriod()", true, 2},
+	"windowc":       {"|window()\n    .periodCount(%d)\n    .everyCount(%d)", true, 2},
+	"windowcfill":   {"|window()\n    .periodCount(%d)\n    .everyCount(%d)\n    .fillPeriod()", true, 2},
+	"winsum":        {"|window()\n    .periodCount(%d)\n    .everyCount(%d)\n  |sum('v')\n    .as('o')", false, 2},
+	"winmean":       {"|window()\n    .period(%ds)\n    .every(%ds)\n  |mean('v')\n    .as('o')", false, 2},
+	"wincount":      {"|window()\n    .periodCount(%d)\n    .everyCount(%d)\n  |count('v')\n    .as('o')", false, 2},
+	"winwhere":      {"|window()\n    .periodCount(%d)\n    .everyCount(%d)\n  |where(lambda: count() %% 2 == 1)", true, 2},
+	"winstatecount": {"|window()\n    .periodCount(%d)\n    .everyCount(%d)\n  |stateCount(lambda: \"v\" > 3)\n    .as('o')", true, 2},
+	"winsample":     {"|window()\n    .periodCount(%d)\n    .everyCount(%d)\n  |sample(2)", true, 2},
+	"winderiv":      {"|window()\n    .periodCount(%d)\n    .everyCount(%d)\n  |derivative('v')\n    .unit(1s)", true, 2},
+	"winchange":     {"|window()\n    .periodCount(%d)\n    .everyCount(%d)\n  |changeDetect('v')", true, 2},
+	"wineval":       {"|window()\n    .periodCount(%d)\n    .everyCount(%d)\n  |eval(lambda: count() + \"v\")\n    .as('o')", true, 2},
+	"winalert":      {"|window()\n    .periodCount(%d)\n    .everyCount(%d)\n  |alert()\n    .crit(lambda: \"v\" > 5)\n    .levelField('o')", true, 2},
+	"winalertcount": {"|window()\n    .periodCount(%d)\n    .everyCount(%d)\n  |alert()\n    .crit(lambda: count() > 4)\n    .levelField('o')", true, 2},
+	"wincumsum":     {"|window()\n    .periodCount(%d)\n    .everyCount(%d)\n  |cumulativeSum('v')\n    .as('o')", true, 2},
+}
+
+func isoScript(t []string) (string, bool) {
+	// node <kind> <p1> <p2> <byName> <dims>
+	if len(t) < 6 {
+		return "", false
+	}
+	def, ok := nodeDefs[t[1]]
+	if !ok {
+		return "", false
+	}
+	p1, _ := strconv.Atoi(t[2])
+	p2, _ := strconv.Atoi(t[3])
+	args := []interface{}{p1, p2}[:def.nargs]
+	dims := unescList(t[5])
+	sort.Strings(dims)
+	var b strings.Builder
+	fmt.Fprintf(&b, "stream\n  |from()\n  |groupBy(%s)", groupByArgs(false, dims))
+	if t[4] == "1" {
+		b.WriteString("\n    .byMeasurement()")
+	}
+	b.WriteString("\n  " + fmt.Sprintf(def.script, args...))
+	if def.batch {
+		b.WriteString("\n  @bsink()\n")
+	} else {
+		b.WriteString("\n  @sink()\n")
+	}
+	return b.String(), true
+}
+
+func renderRun(script string, pts []pt) string {
+	msgs, status := runTask(script, pts)
+	if status != "ok" {
+		return status
+	}
+	var o []string
+	for _, m := range msgs {
+		if s, ok := renderMsg(m); ok {
+			o = append(o, s)
+		}
+	}
+	if len(o) == 0 {
+		return "-"
+	}
+	return strings.Join(o, " ")
+}
+
+func execIso(lines []string) []string {
+	var out []string
+	var cfg []string
+	var pts []pt
+	for _, l := range lines {
+		t := strings.Fields(l)
+		switch t[0] {
+		case "node":
+			cfg = t
+			out = append(out, l)
+		case "pt":
+			if p, ok := parsePt(t); ok {
+				pts = append(pts, p)
+				out = append(out, l)
+			}
+		}
+	}
+	script, ok := isoScript(cfg)
+	if !ok {
+		return append(out, "bad")
+	}
+	byName := cfg[4] == "1"
+	dims := unescList(cfg[5])
+	sort.Strings(dims)
+	out = append(out, "full => "+renderRun(script, pts))
+	// the groups of the input, in order of first appearance, by STRUCTURED key
+	var keys []string
+	byKey := map[string][]pt{}
+	for _, p := range pts {
+		k := gkey(byName, p.name, dims, p.tags)
+		if _, ok := byKey[k]; !ok {
+			keys = append(keys, k)
+		}
+		byKey[k] = append(byKey[k], p)
+	}
+	for _, k := range keys {
+		out = append(out, "solo "+k+" => "+renderRun(script, byKey[k]))
+	}
+	return out
+}
+
+// ---------------------------------------------------------------------------------------------
+
+func execCase(lines []string) []string {
+	var in []string
+	for _, raw := range lines {
+		l := raw
+		if i := strings.Index(l, " => "); i >= 0 {
+			l = l[:i]
+		}
+		t := strings.Fields(l)
+		if len(t) == 0 || t[0] == "full" || t[0] == "solo" {
+			continue // derived lines are recomputed
+		}
+		in = append(in, l)
+	}
+	if len(in) == 0 {
+		return nil
+	}
+	kinds := map[string]bool{}
+	for _, l := range in {
+		kinds[strings.Fields(l)[0]] = true
+	}
+	switch {
+	case kinds["node"]:
+		return execIso(in)
+	case kinds["gb"]:
+		return execGb(in)
+	default:
+		var out []string
+		for _, l := range in {
+			t := strings.Fields(l)
+			if t[0] == "gid" {
+				out = append(out, execGid(l, t))
+			}
+		}
+		return out
+	}
+}
+
+func emit(out *kit.Out, id string, lines []string) {
+	out.Line("case", id)
+	for _, l := range lines {
+		out.Line(l)
+	}
+	out.Line("end")
+	out.Flush()
+}
+
+// Run: `vh-c06 -seed S -n N [-tier thorough]` generates; `vh-c06 -ops file` re-executes the cases of a file.
 func Run(args []string) int {
-	fmt.Fprintln(os.Stderr, "c06: harness not implemented yet")
-	return 3
+	f := kit.ParseFlags(args)
+	out := kit.NewOut()
+	defer out.Flush()
+	if f.Ops != "" {
+		lines, err := kit.ReadLines(f.Ops)
+		if err != nil {
+			fmt.Fprintln(os.Stderr, err)
+			return 2
+		}
+		var cur []string
+		id := ""
+		for _, l := range lines {
+			t := strings.Fields(l)
+			switch {
+			case len(t) == 2 && t[0] == "case":
+				id, cur = t[1], nil
+			case len(t) == 1 && t[0] == "end":
+				emit(out, id, execCase(cur))
+			default:
+				cur = append(cur, l)
+			}
+		}
+		return 0
+	}
+	generate(out, f)
+	return 0
 }
